@@ -401,6 +401,9 @@ class StmtMixin(BuiltinMixin):
     # ------------------------------------------------------------------ try
     def st_Try(self, s, st, ctx):
         out = []
+        if self.recording:
+            for h in s.handlers:
+                self.handlers_seen.setdefault((ctx.func.key(), h.lineno), False)
         for s2, oc in self.exec_block(s.body, st, ctx):
             if isinstance(oc, Raise):
                 out.extend(self.run_handlers(s, s2, ctx, oc))
@@ -428,6 +431,9 @@ class StmtMixin(BuiltinMixin):
     def run_handlers(self, s: ast.Try, st: State, ctx: Ctx, oc: Raise):
         out = []
         pending = [st]
+        if self.recording:
+            for h in s.handlers:
+                self.handlers_seen.setdefault((ctx.func.key(), h.lineno), False)
         for h in s.handlers:
             nxt = []
             for cur in pending:
@@ -436,6 +442,8 @@ class StmtMixin(BuiltinMixin):
                     if not match:
                         nxt.append(s2)
                         continue
+                    if self.recording:
+                        self.handlers_seen[(ctx.func.key(), h.lineno)] = True
                     if h.name:
                         self.assign_name(h.name, oc.exc, s2, ctx)
                     hctx = ctx.sub(handling=ctx.handling + (oc.exc,))
